@@ -171,7 +171,7 @@ def shape_program(r):
 
     def pr(e):
         mains.append('    let _ = Process.println(Str.fromInt(%s));' % e)
-    kinds = r.shuffle(['both', 'three', 'rot', 'unit', 'const', 'constdiff', 'fwd', 'handover', 'strconst', 'closure', 'match', 'nontail',
+    kinds = r.shuffle(['both', 'three', 'rot', 'unit', 'const', 'constdiff', 'fwd', 'handover', 'strconst', 'closure', 'match', 'nontail', 'unitparam',
                        'both', 'rot', 'const', 'handover'])[:r.range(5, 9)]
     for i, kd in enumerate(kinds):
         f = 'f%d' % i
@@ -201,6 +201,12 @@ def shape_program(r):
             if r.chance(1, 2):
                 funs.append('  function %sb(i: int, n: int): unit = if i >= n { } else if i %% 2 == 0 { Main.%sb(i + 1, n) } else { let _ = Process.println("o"); Main.%sb(i + 2, n) }' % (f, f, f))
                 mains.append('    let _ = Main.%sb(0, %s);' % (f, n_it()))
+        elif kd == 'unitparam':
+            # a unit function that returns its unit parameter at a leaf (outside wf_tail: TailRec.unit_param_class)
+            funs.append('  function %s(n: int, u: unit): unit = if n > 0 { let _ = Process.println(Str.fromInt(n)); Main.%s(n - 1, u) } else { u }' % (f, f))
+            mains.append('    let _ = Main.%s(%s, {});' % (f, n_it()))
+            if r.chance(1, 2):
+                mains.append('    let pu%d = Process.println("u"); let _ = Main.%s(%s, pu%d);' % (i, f, n_it(), i))
         elif kd == 'const':
             c = r.pick([7, 0, 1, 42, -3])
             funs.append('  function %s(k: int, x: int, n: int): int = if n <= 0 { x + k } else { Main.%s(k, x * 2 + k, n - 1) }' % (f, f))
@@ -471,7 +477,7 @@ def synthetic(ck, tier, seed):
                             'const_param_elim of the program', r['cpe']['after'], how='coqc work/c01mir_syn_%d.v (job%d)' % (si, i))
             all_wft = True
             for t, row in zip(r['tailrec'], tails):
-                tdiff, changed, wft, seeded_eq_t, nd, rconst = row
+                tdiff, changed, wft, seeded_eq_t, nd, rconst, upc = row
                 st['tail_functions'] += 1
                 st['tail_model_eq_real'] += 1 - tdiff
                 if changed:
@@ -561,7 +567,7 @@ def mir(ck, tier, seed):
           'cpe_parameters_dropped': 0, 'cpe_parameters_replaced_by_constant': 0, 'cpe_functions_unoptimizable': 0,
           'cpe_seeded_variant_differs': 0, 'cpe_inst': [0, 0, 0, 0],
           'tail_functions': 0, 'tail_model_eq_real': 0, 'tail_changed': 0, 'tail_changed_both_branches': 0, 'tail_changed_wf': 0,
-          'tail_changed_with_discard': 0, 'tail_unchanged_wf': 0, 'tail_seeded_variant_differs': 0, 'tail_inst': [0, 0, 0, 0],
+          'tail_changed_with_discard': 0, 'tail_changed_unit_param_class': 0, 'tail_unchanged_wf': 0, 'tail_seeded_variant_differs': 0, 'tail_inst': [0, 0, 0, 0],
           'runs_compared': 0, 'runs_equal': 0}
     kinds = {}
     usable = []
@@ -671,7 +677,7 @@ def mir(ck, tier, seed):
                                     where, expected='sem (after) = sem (before) unless out of fuel',
                                     observed='%d of %d instances differ' % (itail[2], sum(itail[:3])))
             for t, row in zip(r['tailrec'], tails):
-                tdiff, changed, wft, seeded_eq_t, nd, rconst = row
+                tdiff, changed, wft, seeded_eq_t, nd, rconst, upc = row
                 st['tail_functions'] += 1
                 st['tail_model_eq_real'] += 1 - tdiff
                 if changed:
@@ -690,7 +696,12 @@ def mir(ck, tier, seed):
                                 'tail_rec_rewrite of the real function with the real temporaries', t.get('after'),
                                 how='vh mirstage-dump on the sources; coqc work/c01mir_%d.v (job%d)' % (si, i))
                 if changed and not wft:
-                    ck.disagree('C01mir: hypothesis wf_tail of C01mir_tailrec_preserves on a real rewritten function', fw, 'wf_tail', 'not wf_tail')
+                    if upc:
+                        # a unit function that returns a unit-typed parameter at a leaf: outside the theorem (it holds only because
+                        # every unit is 0, C01mir_tailrec_unit_param_refuted); the class is decided in Gallina, the function is tested
+                        st['tail_changed_unit_param_class'] += 1
+                    else:
+                        ck.disagree('C01mir: hypothesis wf_tail of C01mir_tailrec_preserves on a real rewritten function', fw, 'wf_tail', 'not wf_tail')
     st['stmt_kinds'] = kinds
     for k, v in st.items():
         if isinstance(v, int):
@@ -700,12 +711,12 @@ def mir(ck, tier, seed):
                   '%d programs dumped, %d functions rewritten, %d parameters dropped' % (st['dumped'], st['tail_changed'], st['cpe_parameters_dropped']))
     print('C01mir: programs=%d dumped=%d rejected=%d staged-run==pipeline:%d | cpe: model=real %d/%d wf_prog:%d changed:%d functions:%d losing:%d '
           'dropped:%d (const %d) unoptimizable:%d seeded-variant-differs:%d instances[oof,same,diff,done]=%s | tailrec: functions=%d model=real:%d '
-          'rewritten:%d (both-branches %d, discard %d) wf_tail:%d seeded-variant-differs:%d instances=%s | mirsem runs equal %d/%d'
+          'rewritten:%d (both-branches %d, discard %d) wf_tail:%d unit-parameter-class:%d seeded-variant-differs:%d instances=%s | mirsem runs equal %d/%d'
           % (st['programs'], st['dumped'], st['rejected'], st['pipeline_same'], st['cpe_model_eq_real'], st['dumped'], st['cpe_wf_prog'],
              st['cpe_programs_changed'], st['cpe_functions'], st['cpe_functions_losing_a_parameter'], st['cpe_parameters_dropped'],
              st['cpe_parameters_replaced_by_constant'], st['cpe_functions_unoptimizable'], st['cpe_seeded_variant_differs'], st['cpe_inst'],
              st['tail_functions'], st['tail_model_eq_real'], st['tail_changed'], st['tail_changed_both_branches'], st['tail_changed_with_discard'],
-             st['tail_changed_wf'], st['tail_seeded_variant_differs'], st['tail_inst'], st['runs_equal'], st['runs_compared']))
+             st['tail_changed_wf'], st['tail_changed_unit_param_class'], st['tail_seeded_variant_differs'], st['tail_inst'], st['runs_equal'], st['runs_compared']))
     print('C01mir: statement forms seen in the real programs: %s' % json.dumps(kinds, sort_keys=True))
     synthetic(ck, tier, seed)
     return ok
